@@ -151,19 +151,31 @@ var atExit []func()
 
 // definePart registers an enumeration: enum yields every case of the bounded space, check is the
 // oracle for one case (returns an observation, the violations and the number of transitions).
+// historyPass: parts whose shards, after their own slice of the enumeration, run the FIRST n cases of
+// the whole enumeration once more, in reverse order - whoever owns them. Enumerations are ordered
+// simplest-first, so these are the small, closely related inputs; every shard process then evaluates
+// all of them after everything else it has done. A verdict that depends on what the process evaluated
+// before (memoised results, pooled objects, caches keyed too coarsely) shows up here even when the
+// related inputs belong to different shards.
+var historyPass = map[string]int{
+	"c01/range-language": 3000, "c01/reference-chaining": 1500, "c01/entry-points": 1000,
+	"c02/tag-routing": 1000,
+	"c07/field-lists": 3000, "c07/encoder-call-sequences": 3000, "c08/field-lists": 3000, "c08/encoder-call-sequences": 3000, "c08/header-and-widths": 2000,
+	"c10/hooks-product": 1000, "c11/call-sites": 448,
+	"c12/write-sequences": 1000, "c12/handle-histories": 300,
+	"c15/deviations": 400, "c15/totality": 400,
+	"c16/lifecycle-sequences": 3000,
+	"c17/token-sequences":     5000, "c17/colliding-assignments": 2000, "c17/byte-strings": 5000,
+}
+
 func definePart[C any](prop, name, tiers, bounds string, enum func(tier string, yield func(C)), check func(C) (string, []Violation, int)) {
 	parts = append(parts, partDef{prop: prop, name: name, tiers: tiers,
 		run: func(r *runCtx, p *Part) {
 			p.Bounds = bounds
 			k := 0
-			enum(r.tier, func(c C) {
-				if !r.mine() || p.Capped {
-					return
-				}
-				if k++; k%256 == 0 && r.expired() {
-					p.Capped = true
-					return
-				}
+			nHist := historyPass[name]
+			var first []C
+			runCase := func(c C, sample bool) {
 				t1 := time.Now()
 				arm(p, name, c)
 				obs, vs, tr := check(c)
@@ -175,13 +187,36 @@ func definePart[C any](prop, name, tiers, bounds string, enum func(tier string, 
 				p.States++
 				p.Transitions += int64(tr)
 				p.addObs(obs)
-				if len(p.Samples) < 2 && (p.Executions == 1 || p.Executions == 1000) {
+				if sample && len(p.Samples) < 2 && (p.Executions == 1 || p.Executions == 1000) {
 					p.Samples = append(p.Samples, map[string]any{"part": name, "case": c, "observation": trunc(obs, 300)})
 				}
 				for _, v := range vs {
 					p.fail(v, c)
 				}
+			}
+			enum(r.tier, func(c C) {
+				if len(first) < nHist {
+					first = append(first, c)
+				}
+				if !r.mine() || p.Capped {
+					return
+				}
+				if k++; k%256 == 0 && r.expired() {
+					p.Capped = true
+					return
+				}
+				runCase(c, true)
 			})
+			if nHist > 0 && !p.Capped {
+				p.Bounds += fmt.Sprintf("; history pass: in every shard process the first %d cases of the enumeration once more, in reverse order, after the shard's own slice", len(first))
+				for i := len(first) - 1; i >= 0; i-- {
+					if i%256 == 0 && r.expired() {
+						p.Capped = true
+						break
+					}
+					runCase(first[i], false)
+				}
+			}
 		},
 		replay: func(raw json.RawMessage) []Violation {
 			var c C
